@@ -369,3 +369,40 @@ def reach_calls(fx, entries, follow=lambda body, call: True, crates=None, stop=l
                 seen[id(n)] = n
                 work.append(n)
     return list(seen.values())
+
+
+def near_calls(fx, body, rx, depth=2):
+    """Calls matching rx in bodies entered from `body` through at most `depth` call levels (closures included)."""
+    seen = {id(body): body}
+    layer = [body]
+    out = []
+    for d in range(depth + 1):
+        nxt = []
+        for b in layer:
+            for t in tree(b):
+                out.extend(c for c in t.calls_to(rx))
+                if d == depth:
+                    continue
+                for c in t.calls():
+                    for n in list(fx.callee_bodies(c)) + [x for q in c.closures + c.fnitems for x in fx.by_q.get(q, [])]:
+                        if id(n) not in seen:
+                            seen[id(n)] = n
+                            nxt.append(n)
+        layer = nxt
+    return out
+
+
+def require(fx, res, rule, key, body, rx, found, minimum, bad, local_callee=True):
+    """Obligation 'body performs the call(s) rx' (found = number of qualifying direct call sites the rule located).
+    Unmet -> VIOLATION when the callee still exists and body no longer reaches it within two call levels (the step was
+    deleted); unmet because the callee was renamed/inlined away, or moved into a helper that body still calls ->
+    anchor drift (fail closed, exit 2): the rule has to be re-anchored, nothing is concluded."""
+    if found >= minimum:
+        return True
+    exists = (not local_callee) or bool(fx.bodies(rx))
+    moved = [c for c in near_calls(fx, body, rx) if c.body is not body and c.body not in tree(body)]
+    if not exists or (moved and found == 0):
+        res.floor(rule, "%s in %s%s" % (rx, body.q.rsplit("::", 1)[1], " (callee no longer defined)" if not exists else " (now reached through %s)" % moved[0].body.q), found, minimum)
+    else:
+        res.violation(rule, key, body.where(), bad)
+    return False
